@@ -11,6 +11,8 @@ Parsed from the source text with `ast` (numeric literals are not observable as a
 Decimal literals are emitted as exact (numerator, denominator) pairs of the literal's shortest repr.
 Evaluated on the real wrapper classes (`wrapper_facts`): what `ChaperoneLoop` does to the Chaperone it is handed, what
 `BioAgent` constructs as its organelle.
+Evaluated through the public API (`strict_trim_facts`): which code points STRICT alone tolerates around clean JSON
+(probe domain: all Cc / Cf / Zs / Zl / Zp code points and more), and Python's `str.isspace` over all code points.
 Every fact is an `Option`; a shape that is not recognised yields `none`, which makes `c11_extracted_tables_agree`
 fail to elaborate (fail closed).
 """
@@ -199,6 +201,63 @@ def wrapper_facts(mod):
     return facts
 
 
+def strict_trim_facts(mod):
+    """EVALUATED on the real class through its public API: for every code point of the probe domain (all of Unicode's
+    controls Cc, format characters Cf and separators Zs/Zl/Zp, the neighbours of every `str.isspace` code point, and a few
+    noncharacters / private-use / tag / blank-looking ones) — does `fold` / `fold_enhanced` with STRICT alone accept clean
+    JSON with that code point in front of it / behind it?  The model says: exactly when it is white space (`isSpace`).
+    Also Python's `str.isspace` over ALL code points, as ranges.  None = not observable."""
+    facts = {"domain": None, "plain_lead": None, "plain_trail": None, "enh_lead": None, "enh_trail": None, "space_ranges": None}
+    try:
+        import sys
+        import unicodedata
+        spaces = [cp for cp in range(sys.maxunicode + 1) if chr(cp).isspace()]
+        ranges = []
+        for cp in spaces:
+            if ranges and ranges[-1][1] == cp - 1:
+                ranges[-1][1] = cp
+            else:
+                ranges.append([cp, cp])
+        facts["space_ranges"] = [tuple(r) for r in ranges]
+        dom = set()
+        for cp in range(sys.maxunicode + 1):
+            if unicodedata.category(chr(cp)) in ("Cc", "Cf", "Zs", "Zl", "Zp"):
+                dom.add(cp)
+        for cp in spaces:
+            dom.update((cp - 1, cp + 1))
+        dom.update([0xfffe, 0xffff, 0xfffd, 0xe000, 0xf8ff, 0x2800, 0x3164, 0x115f, 0x1160, 0xfe0f, 0x034f, 0xd800, 0xdfff,
+                    0x10ffff, 0x1fffe, 0xe0100, 0x30, 0x41, 0x5f, 0x22, 0x5c, 0x2c])
+        dom = sorted(c for c in dom if 0 <= c <= sys.maxunicode)
+        from pydantic import BaseModel
+
+        class ProbeDoc(BaseModel):
+            p: int
+            q: dict
+
+        doc = '{"p": 1, "q": {"r": [2]}}'          # nested: the bare-object pattern cannot rescue it, only STRICT reads it
+        strict = [mod.FoldingStrategy.STRICT]
+        ch = mod.Chaperone(silent=True)
+        if not (ch.fold(doc, ProbeDoc, strict).valid and ch.fold_enhanced(doc, ProbeDoc, strict).valid):
+            return facts
+        res = {"plain_lead": [], "plain_trail": [], "enh_lead": [], "enh_trail": []}
+        for cp in dom:
+            c = chr(cp)
+            for key, meth, text in (("plain_lead", ch.fold, c + doc), ("plain_trail", ch.fold, doc + c),
+                                    ("enh_lead", ch.fold_enhanced, c + doc), ("enh_trail", ch.fold_enhanced, doc + c)):
+                r = meth(text, ProbeDoc, strict)
+                if r.valid is True:
+                    if not (isinstance(r.structure, ProbeDoc) and r.structure.p == 1 and r.structure.q == {"r": [2]}):
+                        return facts
+                    res[key].append(cp)
+                elif r.valid is not False:
+                    return facts
+        facts["domain"] = dom
+        facts.update(res)
+    except Exception:
+        pass
+    return facts
+
+
 def generate(repo: Path, mod) -> str:
     src_path = repo / "operon_ai" / "organelles" / "chaperone.py"
     tree = _guard(lambda: ast.parse(src_path.read_text()))
@@ -299,6 +358,24 @@ def generate(repo: Path, mod) -> str:
     out.append("/-- the `strategies` parameter of `__init__`, `fold`, `fold_enhanced` (and `co_chaperones`, `on_misfold` of `__init__`)")
     out.append("    default to `None`: an omitted argument is `None` -/")
     out.append(f"def omittedArgumentIsNone : Option Bool := {boolean(wf.get('omitted_is_none'))}")
+    tf = _guard(lambda: strict_trim_facts(mod)) or {}
+
+    def nats(l):
+        if l is None or not all(isinstance(x, int) and not isinstance(x, bool) and x >= 0 for x in l):
+            return "none"
+        return "some [" + ", ".join(str(x) for x in l) + "]"
+    out.append("/-- STRICT alone, EVALUATED through the public API over the probe domain (every Cc / Cf / Zs / Zl / Zp code point,")
+    out.append("    the neighbours of every white-space code point, some noncharacters / private-use / tag / blank-looking ones):")
+    out.append("    the code points that `fold` / `fold_enhanced` accept in front of / behind clean (nested) JSON -/")
+    out.append(f"def strictProbeDomain : Option (List Nat) := {nats(tf.get('domain'))}")
+    out.append(f"def strictPlainAcceptsLeading : Option (List Nat) := {nats(tf.get('plain_lead'))}")
+    out.append(f"def strictPlainAcceptsTrailing : Option (List Nat) := {nats(tf.get('plain_trail'))}")
+    out.append(f"def strictEnhancedAcceptsLeading : Option (List Nat) := {nats(tf.get('enh_lead'))}")
+    out.append(f"def strictEnhancedAcceptsTrailing : Option (List Nat) := {nats(tf.get('enh_trail'))}")
+    out.append("/-- Python's `str.isspace` over ALL code points (evaluated), as inclusive ranges -/")
+    sr = tf.get("space_ranges")
+    out.append("def pythonSpaceRanges : Option (List (Nat × Nat)) := "
+               + ("none" if sr is None else "some [" + ", ".join(f"({a}, {b})" for a, b in sr) + "]"))
     out.append("")
     out.append("end Operon.Gen.ChaperoneTables")
     return "\n".join(out) + "\n"
